@@ -18,6 +18,7 @@ from tools.lib import rawdrv as rd
 MODELLED = {"FHandshake", "FHandleRequest", "FSendExc", "FJobCall", "FMuxEvents"}
 MAXMSG = 1 << 20
 CURRENT = None          # the active Recorder (wrappers are installed once per process)
+HANGS = [0]             # unanswered waits seen in this process: a systematic hang must cost seconds per case, not minutes
 
 
 def cname_of(cls):
@@ -639,7 +640,6 @@ class Player:
         self.rec = Recorder(info, tree)
         self.srv = None
         self.opened = 0
-        self.hangs = 0           # unanswered waits seen in this process (see play)
 
     # -- server life cycle
     def start(self):
@@ -726,8 +726,8 @@ class Player:
             self.start()
             srv, rec = self.srv, self.rec
             base = self.acct()
-        impatient = self.hangs >= 2
-        first, more, long = (2.0, 3.0, 3.0) if impatient else (3.0, 12.0, 8.0)
+        impatient = HANGS[0] >= 2
+        first, more, long = (3.0, 12.0, 8.0) if HANGS[0] < 2 else (2.0, 2.0, 3.0) if HANGS[0] < 5 else (1.0, 1.0, 1.5)
         stype = self.cfg["server"]
         self.opened = 1
         w = rd.RawClient(srv.port, timeout=3.0)
@@ -751,7 +751,7 @@ class Player:
         def noreply(what, r):
             stuck[0] = True
             if r == "TIMEOUT":
-                self.hangs += 1
+                HANGS[0] += 1
                 viol.append(("daemon-unresponsive:" + stype, "%s was not answered within %.0f s although the connection is open "
                              "(the thread serving it is blocked or spinning)" % (what, first + more)))
             else:
@@ -788,7 +788,7 @@ class Player:
                 m = patient(f, first, budget)
                 if not isinstance(m, dict) or m.get("type") not in (protocol.MSG_CONNECTOK, protocol.MSG_CONNECTFAIL):
                     if m == "TIMEOUT":
-                        self.hangs += 1
+                        HANGS[0] += 1
                     fv.append((sig + ":" + stype, "a new client's CONNECT got %r instead of an answer within %.0f s" % (m, first + budget)))
                 elif m.get("type") == protocol.MSG_CONNECTFAIL:
                     refusal = str(m.get("value"))
@@ -890,7 +890,7 @@ class Player:
             return give_up()
         if a != 1:
             if stype == "thread" and a > 1:
-                self.hangs += 1
+                HANGS[0] += 1
                 viol.append(("worker-stranded:thread", "after every attacking connection has ended Pool.busy is %d with only the witness "
                              "connected (pre-attack value 1): %d worker(s) never returned to the pool" % (a, a - 1)))
             else:
